@@ -46,14 +46,17 @@ func (g *Gengine) Execute(rb *builder.RuleBuilder, b bool) error {
 		return errors.New("ruleBuilder is nil")
 	}
 
+	//read the rule set once: a hot update during the call must not change what this call runs
+	kc := rb.Kc
+
 	g.returnResult = make(map[string]interface{})
 
-	if len(rb.Kc.SortRules) == 0 {
+	if len(kc.SortRules) == 0 {
 		return errors.New("no rule has been injected into engine! ")
 	}
 
 	var eMsg []string
-	for _, r := range rb.Kc.SortRules {
+	for _, r := range kc.SortRules {
 		v, err, bx := r.Execute(rb.Dc)
 		if bx {
 			g.addResult(r.RuleName, v)
@@ -92,14 +95,17 @@ func (g *Gengine) ExecuteWithStopTagDirect(rb *builder.RuleBuilder, b bool, sTag
 		return errors.New("ruleBuilder is nil")
 	}
 
+	//read the rule set once: a hot update during the call must not change what this call runs
+	kc := rb.Kc
+
 	g.returnResult = make(map[string]interface{})
 
-	if len(rb.Kc.SortRules) == 0 {
+	if len(kc.SortRules) == 0 {
 		return errors.New("no rule has been injected into engine! ")
 	}
 
 	var eMsg []string
-	for _, r := range rb.Kc.SortRules {
+	for _, r := range kc.SortRules {
 		v, err, bx := r.Execute(rb.Dc)
 		if bx {
 			g.addResult(r.RuleName, v)
@@ -135,9 +141,12 @@ func (g *Gengine) ExecuteConcurrent(rb *builder.RuleBuilder) error {
 		return errors.New("ruleBuilder is nil")
 	}
 
+	//read the rule set once: a hot update during the call must not change what this call runs
+	kc := rb.Kc
+
 	g.returnResult = make(map[string]interface{})
 
-	if len(rb.Kc.RuleEntities) == 0 {
+	if len(kc.RuleEntities) == 0 {
 		return errors.New("no rule has been injected into engine! ")
 	}
 
@@ -145,8 +154,8 @@ func (g *Gengine) ExecuteConcurrent(rb *builder.RuleBuilder) error {
 	var eMsg []string
 
 	var wg sync.WaitGroup
-	wg.Add(len(rb.Kc.RuleEntities))
-	for _, r := range rb.Kc.RuleEntities {
+	wg.Add(len(kc.RuleEntities))
+	for _, r := range kc.RuleEntities {
 		rr := r
 		go func() {
 			v, e, bx := rr.Execute(rb.Dc)
@@ -182,13 +191,16 @@ func (g *Gengine) ExecuteMixModel(rb *builder.RuleBuilder) error {
 		return errors.New("ruleBuilder is nil")
 	}
 
+	//read the rule set once: a hot update during the call must not change what this call runs
+	kc := rb.Kc
+
 	g.returnResult = make(map[string]interface{})
 
-	if len(rb.Kc.SortRules) == 0 {
+	if len(kc.SortRules) == 0 {
 		return errors.New("no rule has been injected into engine! ")
 	}
 
-	rules := rb.Kc.SortRules
+	rules := kc.SortRules
 	v, e, bx := rules[0].Execute(rb.Dc)
 	if bx {
 		g.addResult(rules[0].RuleName, v)
@@ -248,13 +260,16 @@ func (g *Gengine) ExecuteMixModelWithStopTagDirect(rb *builder.RuleBuilder, sTag
 		return errors.New("ruleBuilder is nil")
 	}
 
+	//read the rule set once: a hot update during the call must not change what this call runs
+	kc := rb.Kc
+
 	g.returnResult = make(map[string]interface{})
 
-	if len(rb.Kc.SortRules) == 0 {
+	if len(kc.SortRules) == 0 {
 		return errors.New("no rule has been injected into engine! ")
 	}
 
-	rules := rb.Kc.SortRules
+	rules := kc.SortRules
 	v, e, bx := rules[0].Execute(rb.Dc)
 	if bx {
 		g.addResult(rules[0].RuleName, v)
@@ -305,15 +320,18 @@ func (g *Gengine) ExecuteSelectedRules(rb *builder.RuleBuilder, names []string) 
 		return errors.New("ruleBuilder is nil")
 	}
 
+	//read the rule set once: a hot update during the call must not change what this call runs
+	kc := rb.Kc
+
 	g.returnResult = make(map[string]interface{})
 
-	if len(rb.Kc.RuleEntities) == 0 {
+	if len(kc.RuleEntities) == 0 {
 		return errors.New("no rule has been injected into engine! ")
 	}
 
 	var rules []*base.RuleEntity
 	for _, name := range names {
-		if ruleEntity, ok := rb.Kc.RuleEntities[name]; ok {
+		if ruleEntity, ok := kc.RuleEntities[name]; ok {
 			rr := ruleEntity
 			rules = append(rules, rr)
 		} else {
@@ -360,15 +378,18 @@ func (g *Gengine) ExecuteSelectedRulesWithControl(rb *builder.RuleBuilder, b boo
 		return errors.New("ruleBuilder is nil")
 	}
 
+	//read the rule set once: a hot update during the call must not change what this call runs
+	kc := rb.Kc
+
 	g.returnResult = make(map[string]interface{})
 
-	if len(rb.Kc.SortRules) == 0 {
+	if len(kc.SortRules) == 0 {
 		return errors.New("no rule has been injected into engine! ")
 	}
 
 	var rules []*base.RuleEntity
 	for _, name := range names {
-		if ruleEntity, ok := rb.Kc.RuleEntities[name]; ok {
+		if ruleEntity, ok := kc.RuleEntities[name]; ok {
 			rr := ruleEntity
 			rules = append(rules, rr)
 		} else {
@@ -421,15 +442,18 @@ func (g *Gengine) ExecuteSelectedRulesWithControlAsGivenSortedName(rb *builder.R
 		return errors.New("ruleBuilder is nil")
 	}
 
+	//read the rule set once: a hot update during the call must not change what this call runs
+	kc := rb.Kc
+
 	g.returnResult = make(map[string]interface{})
 
-	if len(rb.Kc.SortRules) == 0 {
+	if len(kc.SortRules) == 0 {
 		return errors.New("no rule has been injected into engine! ")
 	}
 
 	var rules []*base.RuleEntity
 	for _, name := range sortedNames {
-		if ruleEntity, ok := rb.Kc.RuleEntities[name]; ok {
+		if ruleEntity, ok := kc.RuleEntities[name]; ok {
 			rr := ruleEntity
 			rules = append(rules, rr)
 		} else {
@@ -474,15 +498,18 @@ func (g *Gengine) ExecuteSelectedRulesWithControlAndStopTag(rb *builder.RuleBuil
 		return errors.New("ruleBuilder is nil")
 	}
 
+	//read the rule set once: a hot update during the call must not change what this call runs
+	kc := rb.Kc
+
 	g.returnResult = make(map[string]interface{})
 
-	if len(rb.Kc.SortRules) == 0 {
+	if len(kc.SortRules) == 0 {
 		return errors.New("no rule has been injected into engine! ")
 	}
 
 	var rules []*base.RuleEntity
 	for _, name := range names {
-		if ruleEntity, ok := rb.Kc.RuleEntities[name]; ok {
+		if ruleEntity, ok := kc.RuleEntities[name]; ok {
 			rr := ruleEntity
 			rules = append(rules, rr)
 		} else {
@@ -539,15 +566,18 @@ func (g *Gengine) ExecuteSelectedRulesWithControlAndStopTagAsGivenSortedName(rb 
 		return errors.New("ruleBuilder is nil")
 	}
 
+	//read the rule set once: a hot update during the call must not change what this call runs
+	kc := rb.Kc
+
 	g.returnResult = make(map[string]interface{})
 
-	if len(rb.Kc.SortRules) == 0 {
+	if len(kc.SortRules) == 0 {
 		return errors.New("no rule has been injected into engine! ")
 	}
 
 	var rules []*base.RuleEntity
 	for _, name := range sortedNames {
-		if ruleEntity, ok := rb.Kc.RuleEntities[name]; ok {
+		if ruleEntity, ok := kc.RuleEntities[name]; ok {
 			rr := ruleEntity
 			rules = append(rules, rr)
 		} else {
@@ -595,15 +625,18 @@ func (g *Gengine) ExecuteSelectedRulesConcurrent(rb *builder.RuleBuilder, names 
 		return errors.New("ruleBuilder is nil")
 	}
 
+	//read the rule set once: a hot update during the call must not change what this call runs
+	kc := rb.Kc
+
 	g.returnResult = make(map[string]interface{})
 
-	if len(rb.Kc.RuleEntities) == 0 {
+	if len(kc.RuleEntities) == 0 {
 		return errors.New("no rule has been injected into engine! ")
 	}
 
 	var rules []*base.RuleEntity
 	for _, name := range names {
-		if ruleEntity, ok := rb.Kc.RuleEntities[name]; ok {
+		if ruleEntity, ok := kc.RuleEntities[name]; ok {
 			rr := ruleEntity
 			rules = append(rules, rr)
 		} else {
@@ -665,15 +698,18 @@ func (g *Gengine) ExecuteSelectedRulesMixModel(rb *builder.RuleBuilder, names []
 		return errors.New("ruleBuilder is nil")
 	}
 
+	//read the rule set once: a hot update during the call must not change what this call runs
+	kc := rb.Kc
+
 	g.returnResult = make(map[string]interface{})
 
-	if len(rb.Kc.RuleEntities) == 0 {
+	if len(kc.RuleEntities) == 0 {
 		return errors.New("no rule has been injected into engine! ")
 	}
 
 	var rules []*base.RuleEntity
 	for _, name := range names {
-		if ruleEntity, ok := rb.Kc.RuleEntities[name]; ok {
+		if ruleEntity, ok := kc.RuleEntities[name]; ok {
 			rr := ruleEntity
 			rules = append(rules, rr)
 		} else {
@@ -757,9 +793,12 @@ func (g *Gengine) ExecuteInverseMixModel(rb *builder.RuleBuilder) error {
 		return errors.New("ruleBuilder is nil")
 	}
 
+	//read the rule set once: a hot update during the call must not change what this call runs
+	kc := rb.Kc
+
 	g.returnResult = make(map[string]interface{})
 
-	rules := rb.Kc.SortRules
+	rules := kc.SortRules
 	length := len(rules)
 	if length == 0 {
 		return errors.New("no rule has been injected into engine! ")
@@ -818,12 +857,15 @@ func (g *Gengine) ExecuteSelectedRulesInverseMixModel(rb *builder.RuleBuilder, n
 		return errors.New("ruleBuilder is nil")
 	}
 
+	//read the rule set once: a hot update during the call must not change what this call runs
+	kc := rb.Kc
+
 	g.returnResult = make(map[string]interface{})
 
 	var rules []*base.RuleEntity
 	//choose user need!
 	for _, name := range names {
-		if re, ok := rb.Kc.RuleEntities[name]; ok {
+		if re, ok := kc.RuleEntities[name]; ok {
 			rules = append(rules, re)
 		} else {
 			log.Errorf("no such rule named: \"%s\"", name)
@@ -897,6 +939,9 @@ func (g *Gengine) ExecuteNSortMConcurrent(nSort, mConcurrent int, rb *builder.Ru
 		return errors.New("ruleBuilder is nil")
 	}
 
+	//read the rule set once: a hot update during the call must not change what this call runs
+	kc := rb.Kc
+
 	g.returnResult = make(map[string]interface{})
 
 	//strictly params check
@@ -908,15 +953,15 @@ func (g *Gengine) ExecuteNSortMConcurrent(nSort, mConcurrent int, rb *builder.Ru
 		return errors.New(fmt.Sprintf("params should be bigger than 0, mConcurrent=%d", nSort))
 	}
 
-	if nSort+mConcurrent > len(rb.Kc.SortRules) {
-		return errors.New(fmt.Sprintf("not enough rules to complete N-M execute model, nSort+mConcurrent = %d, while rules.len=%d", nSort+mConcurrent, len(rb.Kc.SortRules)))
+	if nSort+mConcurrent > len(kc.SortRules) {
+		return errors.New(fmt.Sprintf("not enough rules to complete N-M execute model, nSort+mConcurrent = %d, while rules.len=%d", nSort+mConcurrent, len(kc.SortRules)))
 	}
 
 	var errLock sync.Mutex
 	var eMsg []string
 
 	//nSort
-	nRules := rb.Kc.SortRules[:nSort]
+	nRules := kc.SortRules[:nSort]
 	for _, rule := range nRules {
 		v, e, bx := rule.Execute(rb.Dc)
 		if bx {
@@ -932,7 +977,7 @@ func (g *Gengine) ExecuteNSortMConcurrent(nSort, mConcurrent int, rb *builder.Ru
 	}
 
 	//mConcurrent
-	mRules := rb.Kc.SortRules[nSort:][:mConcurrent]
+	mRules := kc.SortRules[nSort:][:mConcurrent]
 	var wg sync.WaitGroup
 	wg.Add(mConcurrent)
 	for _, r := range mRules {
@@ -969,6 +1014,9 @@ func (g *Gengine) ExecuteNConcurrentMSort(nConcurrent, mSort int, rb *builder.Ru
 		return errors.New("ruleBuilder is nil")
 	}
 
+	//read the rule set once: a hot update during the call must not change what this call runs
+	kc := rb.Kc
+
 	g.returnResult = make(map[string]interface{})
 
 	//strictly params check
@@ -980,15 +1028,15 @@ func (g *Gengine) ExecuteNConcurrentMSort(nConcurrent, mSort int, rb *builder.Ru
 		return errors.New(fmt.Sprintf("params should be bigger than 0, mSort=%d", mSort))
 	}
 
-	if nConcurrent+mSort > len(rb.Kc.SortRules) {
-		return errors.New(fmt.Sprintf("not enough rules to complete N-M execute model, nConcurrent+mSort = %d, while rules.len=%d", nConcurrent+mSort, len(rb.Kc.SortRules)))
+	if nConcurrent+mSort > len(kc.SortRules) {
+		return errors.New(fmt.Sprintf("not enough rules to complete N-M execute model, nConcurrent+mSort = %d, while rules.len=%d", nConcurrent+mSort, len(kc.SortRules)))
 	}
 
 	var errLock sync.Mutex
 	var eMsg []string
 
 	//nConcurrent
-	nRules := rb.Kc.SortRules[:nConcurrent]
+	nRules := kc.SortRules[:nConcurrent]
 	var wg sync.WaitGroup
 	wg.Add(nConcurrent)
 	for _, r := range nRules {
@@ -1015,7 +1063,7 @@ func (g *Gengine) ExecuteNConcurrentMSort(nConcurrent, mSort int, rb *builder.Ru
 	}
 
 	//mSort
-	mRules := rb.Kc.SortRules[nConcurrent:][:mSort]
+	mRules := kc.SortRules[nConcurrent:][:mSort]
 	for _, rule := range mRules {
 		v, e, bx := rule.Execute(rb.Dc)
 		if bx {
@@ -1048,6 +1096,9 @@ func (g *Gengine) ExecuteNConcurrentMConcurrent(nConcurrent, mConcurrent int, rb
 		return errors.New("ruleBuilder is nil")
 	}
 
+	//read the rule set once: a hot update during the call must not change what this call runs
+	kc := rb.Kc
+
 	g.returnResult = make(map[string]interface{})
 
 	//strictly params check
@@ -1059,15 +1110,15 @@ func (g *Gengine) ExecuteNConcurrentMConcurrent(nConcurrent, mConcurrent int, rb
 		return errors.New(fmt.Sprintf("params should be bigger than 0, mConcurrent=%d", mConcurrent))
 	}
 
-	if nConcurrent+mConcurrent > len(rb.Kc.SortRules) {
-		return errors.New(fmt.Sprintf("not enough rules to complete N-M execute model, nConcurrent+mConcurrent = %d, while rules.len=%d", nConcurrent+mConcurrent, len(rb.Kc.SortRules)))
+	if nConcurrent+mConcurrent > len(kc.SortRules) {
+		return errors.New(fmt.Sprintf("not enough rules to complete N-M execute model, nConcurrent+mConcurrent = %d, while rules.len=%d", nConcurrent+mConcurrent, len(kc.SortRules)))
 	}
 
 	var errLock sync.Mutex
 	var eMsg []string
 
 	//nConcurrent
-	nRules := rb.Kc.SortRules[:nConcurrent]
+	nRules := kc.SortRules[:nConcurrent]
 	var nwg sync.WaitGroup
 	nwg.Add(nConcurrent)
 	for _, r := range nRules {
@@ -1094,7 +1145,7 @@ func (g *Gengine) ExecuteNConcurrentMConcurrent(nConcurrent, mConcurrent int, rb
 	}
 
 	//mConcurrent
-	mRules := rb.Kc.SortRules[nConcurrent:][:mConcurrent]
+	mRules := kc.SortRules[nConcurrent:][:mConcurrent]
 	var mwg sync.WaitGroup
 	mwg.Add(mConcurrent)
 	for _, r := range mRules {
@@ -1133,6 +1184,9 @@ func (g *Gengine) ExecuteSelectedNSortMConcurrent(nSort, mConcurrent int, rb *bu
 		return errors.New("ruleBuilder is nil")
 	}
 
+	//read the rule set once: a hot update during the call must not change what this call runs
+	kc := rb.Kc
+
 	g.returnResult = make(map[string]interface{})
 
 	//strictly params check
@@ -1148,14 +1202,14 @@ func (g *Gengine) ExecuteSelectedNSortMConcurrent(nSort, mConcurrent int, rb *bu
 		return errors.New(fmt.Sprintf("selected rules' len should equals the nSort+mConcurrent, selected rules' len=%d, nSort+mConcurrent=%d", len(names), nSort+mConcurrent))
 	}
 
-	if nSort+mConcurrent > len(rb.Kc.SortRules) {
-		return errors.New(fmt.Sprintf("not enough selected rules to complete N-M execute model, nSort+mConcurrent = %d, while rules.len=%d", nSort+mConcurrent, len(rb.Kc.SortRules)))
+	if nSort+mConcurrent > len(kc.SortRules) {
+		return errors.New(fmt.Sprintf("not enough selected rules to complete N-M execute model, nSort+mConcurrent = %d, while rules.len=%d", nSort+mConcurrent, len(kc.SortRules)))
 	}
 
 	//selected based on names
 	var rules []*base.RuleEntity
 	for _, v := range names {
-		if rule, ok := rb.Kc.RuleEntities[v]; ok {
+		if rule, ok := kc.RuleEntities[v]; ok {
 			rules = append(rules, rule)
 		} else {
 			return errors.New(fmt.Sprintf("not exist rule:%s", v))
@@ -1226,6 +1280,9 @@ func (g *Gengine) ExecuteSelectedNConcurrentMSort(nConcurrent, mSort int, rb *bu
 		return errors.New("ruleBuilder is nil")
 	}
 
+	//read the rule set once: a hot update during the call must not change what this call runs
+	kc := rb.Kc
+
 	g.returnResult = make(map[string]interface{})
 
 	//strictly params check
@@ -1241,14 +1298,14 @@ func (g *Gengine) ExecuteSelectedNConcurrentMSort(nConcurrent, mSort int, rb *bu
 		return errors.New(fmt.Sprintf("selected rules' len should equals the nConcurrent+mSort, selected rules' len=%d, nConcurrent+mSort=%d", len(names), nConcurrent+mSort))
 	}
 
-	if nConcurrent+mSort > len(rb.Kc.SortRules) {
-		return errors.New(fmt.Sprintf("not enough selected rules to complete N-M execute model, nConcurrent+mSort = %d, while rules.len=%d", nConcurrent+mSort, len(rb.Kc.SortRules)))
+	if nConcurrent+mSort > len(kc.SortRules) {
+		return errors.New(fmt.Sprintf("not enough selected rules to complete N-M execute model, nConcurrent+mSort = %d, while rules.len=%d", nConcurrent+mSort, len(kc.SortRules)))
 	}
 
 	//selected based on names
 	var rules []*base.RuleEntity
 	for _, v := range names {
-		if rule, ok := rb.Kc.RuleEntities[v]; ok {
+		if rule, ok := kc.RuleEntities[v]; ok {
 			rules = append(rules, rule)
 		} else {
 			return errors.New(fmt.Sprintf("not exist rule:%s", v))
@@ -1325,6 +1382,9 @@ func (g *Gengine) ExecuteSelectedNConcurrentMConcurrent(nConcurrent, mConcurrent
 		return errors.New("ruleBuilder is nil")
 	}
 
+	//read the rule set once: a hot update during the call must not change what this call runs
+	kc := rb.Kc
+
 	g.returnResult = make(map[string]interface{})
 
 	//strictly params check
@@ -1340,14 +1400,14 @@ func (g *Gengine) ExecuteSelectedNConcurrentMConcurrent(nConcurrent, mConcurrent
 		return errors.New(fmt.Sprintf("selected rules' len should equals the nConcurrent+mConcurrent, selected rules' len=%d, nConcurrent+mConcurrent=%d", len(names), nConcurrent+mConcurrent))
 	}
 
-	if nConcurrent+mConcurrent > len(rb.Kc.SortRules) {
-		return errors.New(fmt.Sprintf("not enough selected rules to complete N-M execute model, nConcurrent+mConcurrent = %d, while rules.len=%d", nConcurrent+mConcurrent, len(rb.Kc.SortRules)))
+	if nConcurrent+mConcurrent > len(kc.SortRules) {
+		return errors.New(fmt.Sprintf("not enough selected rules to complete N-M execute model, nConcurrent+mConcurrent = %d, while rules.len=%d", nConcurrent+mConcurrent, len(kc.SortRules)))
 	}
 
 	//selected based on names
 	var rules []*base.RuleEntity
 	for _, v := range names {
-		if rule, ok := rb.Kc.RuleEntities[v]; ok {
+		if rule, ok := kc.RuleEntities[v]; ok {
 			rules = append(rules, rule)
 		} else {
 			return errors.New(fmt.Sprintf("not exist rule:%s", v))
@@ -1425,6 +1485,9 @@ func (g *Gengine) ExecuteDAGModel(rb *builder.RuleBuilder, dag [][]string) error
 		return errors.New("ruleBuilder is nil")
 	}
 
+	//read the rule set once: a hot update during the call must not change what this call runs
+	kc := rb.Kc
+
 	g.returnResult = make(map[string]interface{})
 
 	//check params
@@ -1441,7 +1504,7 @@ func (g *Gengine) ExecuteDAGModel(rb *builder.RuleBuilder, dag [][]string) error
 		var rules []*base.RuleEntity
 		for j := 0; j < len(dag[i]); j++ {
 			//filter the rules which do not exist.
-			if rule, ok := rb.Kc.RuleEntities[dag[i][j]]; ok {
+			if rule, ok := kc.RuleEntities[dag[i][j]]; ok {
 				rules = append(rules, rule)
 			}
 		}
